@@ -15,7 +15,7 @@
 (* never sees a height that is not committed), NoTornCache.                *)
 (***************************************************************************)
 EXTENDS Integers, Sequences, FiniteSets, TLC
-CONSTANTS N, P, Readers, Locked, PublishEarly, MaxCalls, MaxFails, PublishOnFail
+CONSTANTS N, P, Readers, Locked, PublishEarly, MaxCalls, MaxFails, PublishOnFail, PublishOnReadFail
 
 VARIABLES rated, cache, c, spc, loc, committed, memSynced, out, resp, calls, fails
 vars == <<rated, cache, c, spc, loc, committed, memSynced, out, resp, calls, fails>>
@@ -90,12 +90,21 @@ RichList(p) == /\ loc[p].pc = "idle" /\ calls < MaxCalls
                /\ LET r == Lr(committed + 1) IN r > 0 /\ Enter(p, r)
                /\ calls' = calls + 1
                /\ UNCHANGED <<rated, c, spc, committed, memSynced, out, resp, fails>>
+\* a reader's read of pn_rate fails inside the cache function (Locked only; counted against MaxFails): the request is lost;
+\* the shared cache must not keep what was collected so far under the requested height (PublishOnReadFail = TRUE models
+\* the deferred publication that ran even when the collection panicked); dropping it makes the next caller reload
+RichListFail(p) == /\ Locked /\ loc[p].pc = "idle" /\ calls < MaxCalls /\ fails < MaxFails
+                   /\ LET r == Lr(committed + 1) IN
+                        /\ r > 0 /\ cache.h # r
+                        /\ cache' = IF PublishOnReadFail THEN [h |-> r, d |-> <<>>] ELSE [h |-> 0, d |-> <<>>]
+                   /\ calls' = calls + 1 /\ fails' = fails + 1
+                   /\ UNCHANGED <<rated, c, spc, loc, committed, memSynced, out, resp>>
 ReaderDone(p) == /\ loc[p].pc = "done" /\ loc' = [loc EXCEPT ![p] = Idle]
                  /\ UNCHANGED <<rated, cache, c, spc, committed, memSynced, out, resp, calls, fails>>
 
 Next == SyncBegin \/ SyncAvgDone \/ SyncBump \/ SyncCommit \/ SyncCommitFail
         \/ (\E p \in Procs : CacheStep(p))
-        \/ (\E p \in Readers : ReadSync(p) \/ RichList(p) \/ ReaderDone(p))
+        \/ (\E p \in Readers : ReadSync(p) \/ RichList(p) \/ RichListFail(p) \/ ReaderDone(p))
 Spec == Init /\ [][Next]_vars
 
 LedgerUnaffected == \A i \in 1..Len(out) : out[i].d = L!AvgWindow(SOf, out[i].r)
